@@ -7,6 +7,8 @@ mod case;
 mod exprgen;
 mod gen_table;
 mod gens;
+mod oracle_a;
+mod oracle_b;
 mod props;
 mod rng;
 mod runner;
